@@ -2,7 +2,6 @@ package main
 
 import (
 	"fmt"
-	"strings"
 
 	"golang.org/x/tools/go/ssa"
 )
@@ -182,11 +181,16 @@ func (m *Machine) dolevYao(name string, fn *ssa.Function, args []Value) (Value, 
 	case name == "github.com/go-i2p/crypto/ed25519.BlindPublicKey":
 		pub, alpha := m.cellsOf(args[0]), m.cellsOf(args[1])
 		// a public key produced by nd.Ed25519Key is a valid curve point; for any other bytes validity is arbitrary
-		tied := len(pub) == 32
-		for _, c := range pub {
-			if c.op != "var" || !strings.HasPrefix(c.name, "pub") {
-				tied = false
+		tied := false
+		for _, a := range m.hashLog {
+			if a.fn != "ed25519pub" || len(pub) != 32 {
+				continue
 			}
+			same := true
+			for i := range pub {
+				same = same && a.out[i] == pub[i]
+			}
+			tied = tied || same
 		}
 		if !tied {
 			ok := m.idealFn("ed25519point-valid", pub, 1, false)
